@@ -13,6 +13,8 @@ OBLIGATIONS = [
     "C07/P_add_sound.v",
     "C07/P_mul_sound.v",
     "C07/P_neg_sound.v",
+    "C07/P_pow_int_sound.v",
+    "C07/P_div_sound.v",
     "C07/P_denote_respects_eq.v",
     "C07/P_nonvacuous.v",
 ]
